@@ -20,7 +20,7 @@ PROP = "C08"
 def make_library(r):
     """Returns (text, top-level names, {class: member names})."""
     style = lambda base: r.choice([base, base, _camel(base), base.upper() if r.random() < 0.2 else base, "_" + base if r.random() < 0.15 else base])  # noqa: E731
-    n = {k: style(k) for k in ["const_value", "other_const", "helper_func", "camel_case_func", "unused_one", "dup_a", "dup_b", "widget", "get_value", "no_self", "make_default", "kind_name", "spare_class", "build_widget", "shared_widget"]}
+    n = {k: style(k) for k in ["const_value", "other_const", "helper_func", "camel_case_func", "unused_one", "dup_a", "dup_b", "widget", "get_value", "no_self", "make_default", "kind_name", "spare_class", "build_widget", "shared_widget", "verbose_mode", "read_flag"]}
     gap = r.choice(["\n\n\n", "\n\n", "\n"])
     parts = [
         "import math\nimport os",
@@ -35,9 +35,10 @@ def make_library(r):
         f"class {n['spare_class']}:\n    pass",
         f"def {n['build_widget']}(v):\n    return {n['widget']}(v)",
         f"{n['shared_widget']} = {n['widget']}(7)",
+        f"{n['verbose_mode']} = 0\n\n\ndef {n['read_flag']}():\n    return {n['verbose_mode']}",
     ]
     text = gap.join(parts) + "\n"
-    top = [n[k] for k in ("const_value", "other_const", "helper_func", "camel_case_func", "unused_one", "dup_a", "dup_b", "widget", "spare_class", "build_widget", "shared_widget")]
+    top = [n[k] for k in ("const_value", "other_const", "helper_func", "camel_case_func", "unused_one", "dup_a", "dup_b", "widget", "spare_class", "build_widget", "shared_widget", "verbose_mode", "read_flag")]
     members = {n["widget"]: [n[k] for k in ("get_value", "no_self", "make_default", "kind_name")]}
     return text, top, members, n
 
@@ -50,7 +51,7 @@ def _camel(s):
 def make_client(r, modname, n):
     """A client using a random subset of the library in several access forms. Returns (text, names it depends on)."""
     lines, used = [], set()
-    forms = r.sample(range(11), r.randint(2, 5))
+    forms = r.sample(range(13), r.randint(2, 5))
     for f in forms:
         if f == 0:
             lines += [f"from {modname} import {n['helper_func']}", f"print('h', {n['helper_func']}(2))"]
@@ -83,6 +84,13 @@ def make_client(r, modname, n):
         elif f == 9:  # a module-level instance
             lines += [f"import {modname} as M", f"print('s', M.{n['shared_widget']}.{n['make_default']}().v, M.{n['shared_widget']}.{n['get_value']}())"]
             used |= {n["shared_widget"], n["make_default"], n["get_value"]}
+        elif f == 11:  # the client only writes the attribute (configuration / monkeypatch style): assignment, augmented assignment
+            lines += [f"import {modname} as cfg", r.choice([f"cfg.{n['verbose_mode']} = 5", f"cfg.{n['verbose_mode']} += 2"]), f"print('v', cfg.{n['read_flag']}())"]
+            used |= {n["verbose_mode"], n["read_flag"]}
+        elif f == 12:  # names only used in a decorator, an annotation, a default value, an f-string, __all__
+            lines += [f"from {modname} import {n['helper_func']}, {n['spare_class']}, {n['const_value']}, {n['dup_a']}", f"__all__ = ['{n['dup_a']}']",
+                      f"def call(arg: {n['spare_class']} = None, size={n['const_value']}):", f"    return f'{{{n['helper_func']}(size)}}'", "print('a', call())"]
+            used |= {n["helper_func"], n["spare_class"], n["const_value"], n["dup_a"]}
         else:  # a facade: names are imported (and re-exported) but never used
             lines += [f"from {modname} import {n['helper_func']}, {n['dup_a']} as facade_dup, {n['const_value']}, {n['spare_class']}",
                       f"__all__ = ['{n['helper_func']}', 'facade_dup', '{n['const_value']}', '{n['spare_class']}']", "print('facade')"]
